@@ -101,17 +101,20 @@ func (g *gen) want(p string) bool { return g.prop == "" || g.prop == p }
 
 func (g *gen) pf(f string, a ...any) { fmt.Fprintf(&g.b, f, a...) }
 
-// nameMode decorates a leaf field: exported, unexported, tagged, tagged with options.
+// nameMode decorates a leaf field: exported, unexported, tagged, tagged with one option, tagged with two options.
 func nameMode(base string, mode int) (name, tag string) {
-	switch mode % 4 {
+	switch mode % 5 {
 	case 0:
 		return strings.ToUpper(base[:1]) + base[1:], ""
 	case 1:
 		return strings.ToLower(base[:1]) + base[1:], ""
 	case 2:
 		return strings.ToUpper(base[:1]) + base[1:], "k" + strings.ToLower(base)
-	default:
+	case 3:
 		return strings.ToUpper(base[:1]) + base[1:], "o" + strings.ToLower(base) + ",omitempty"
+	default:
+		// several options: the name is what stands in front of the first comma
+		return strings.ToUpper(base[:1]) + base[1:], "m" + strings.ToLower(base) + ",omitempty,string"
 	}
 }
 
